@@ -19,6 +19,31 @@ type c01Case struct {
 	Reads []int  `json:"reads,omitempty"` // backend read-buffer sizes (cycled)
 	Mode  int    `json:"mode"`            // 0 SMTP, 1 LMTP plain backend, 2 LMTP per-recipient backend
 	Limit bool   `json:"limit,omitempty"` // MaxMessageBytes = message length + 1
+	// LimitAt > 0: MaxMessageBytes is exactly this. At or above the message
+	// length the message must arrive whole; below it the reader must deliver
+	// a prefix and must not report end-of-file.
+	LimitAt int `json:"limit_at,omitempty"`
+	// LineLimit > 0: Server.MaxLineLength is this instead of "none". Only
+	// used with streams in which no LF-delimited stretch outgrows it, so the
+	// message must arrive whole all the same (bare LFs end a stretch as far
+	// as the limiter is concerned, CRLF is not required).
+	LineLimit int `json:"line_limit,omitempty"`
+}
+
+// maxStretch is the length of the longest run of octets that ends in LF (the
+// LF included) or at the end of s.
+func maxStretch(s []byte) int {
+	m, cur := 0, 0
+	for _, c := range s {
+		cur++
+		if cur > m {
+			m = cur
+		}
+		if c == '\n' {
+			cur = 0
+		}
+	}
+	return m
 }
 
 func c01Stream(body []byte) []byte {
@@ -37,9 +62,19 @@ func c01Run(c c01Case) Verdict {
 	// (the stock suite expects that); C01 is about the reader, so it runs
 	// with the limit off and quantifies over all streams.
 	cfg := harness.Config{LMTP: c.Mode != 0, MaxLineLength: -1}
+	if c.LineLimit > 0 {
+		if maxStretch(stream) > c.LineLimit || c.LineLimit < 32 {
+			return Verdict{Inconclusive: "line limit below the longest line of the stream (generator bug)"}
+		}
+		cfg.MaxLineLength = c.LineLimit
+	}
 	if c.Limit {
 		cfg.MaxMessageBytes = int64(len(want)) + 1
 	}
+	if c.LimitAt > 0 {
+		cfg.MaxMessageBytes = int64(c.LimitAt)
+	}
+	over := cfg.MaxMessageBytes > 0 && int64(len(want)) > cfg.MaxMessageBytes
 	script := harness.Script{LMTPSession: c.Mode == 2,
 		DefaultData: &harness.DataPlan{Read: harness.ReadPlan{Sizes: c.Reads, Limit: -1}, Honest: true}}
 	r := harness.NewRig(cfg, script)
@@ -75,11 +110,36 @@ func c01Run(c c01Case) Verdict {
 	if len(stream) > 4096 {
 		v.Classes = append(v.Classes, "longer_than_bufio")
 	}
+	if c.LineLimit > 0 && len(stream) > c.LineLimit {
+		v.Classes = append(v.Classes, "line_limit_on")
+		if _, lf := hasBareCRLF(stream); lf {
+			v.Classes = append(v.Classes, "line_limit_bare_lf")
+		}
+	}
+	if cfg.MaxMessageBytes > 0 && int64(len(want)) == cfg.MaxMessageBytes {
+		v.Classes = append(v.Classes, "exactly_at_size_limit")
+	}
 	des := dataEvents(r.B.Events())
 	if len(des) < 1 {
 		return failf("no-data-call", "backend Data was not called (or did not return); trace: %s", traceString(r.B.Events()))
 	}
 	rec := des[0].Data
+	if over {
+		// the message does not fit: what the reader hands over is a prefix
+		// and it never claims to be complete
+		v.NonTrivial = true
+		v.Classes = append(v.Classes, "over_size_limit")
+		if int64(len(rec.Bytes)) > cfg.MaxMessageBytes || !bytes.HasPrefix(want, rec.Bytes) {
+			return failf("over-limit-octets", "limit %d: backend read %s, which is not a prefix (within the limit) of the message %s", cfg.MaxMessageBytes, q(rec.Bytes), q(want))
+		}
+		if rec.EOF {
+			return failf("over-limit-eof", "limit %d: reader reported end-of-file after %s although the message is %s (stream %s)", cfg.MaxMessageBytes, q(rec.Bytes), q(want), q(stream))
+		}
+		if p := r.Log.Panicked(); p != "" {
+			return failf("panic", "server logged a panic: %s", p)
+		}
+		return v
+	}
 	if !bytes.Equal(rec.Bytes, want) {
 		return failf("octets-differ", "backend read %s, reference says %s (stream %s)", q(rec.Bytes), q(want), q(stream))
 	}
@@ -117,13 +177,46 @@ func c01Gen(t *rapid.T) c01Case {
 	}
 	body := genBody(t, maxParts, "body")
 	stream := c01Stream(body)
-	return c01Case{
+	c := c01Case{
 		Body:  body,
 		Cuts:  genCuts(t, len(stream), interestingPositions(stream, ".\r\n"), "cuts"),
 		Reads: genReadSizes(t, "reads"),
 		Mode:  rapid.IntRange(0, 2).Draw(t, "mode"),
-		Limit: rapid.Bool().Draw(t, "limit"),
 	}
+	want, _, _ := ref.Unstuff(stream)
+	switch rapid.IntRange(0, 5).Draw(t, "limit") {
+	case 0, 1:
+		c.Limit = true
+	case 2:
+		c.LimitAt = len(want) // exactly fits
+	case 3:
+		// too small, preferably running out right behind a CR, LF or dot
+		if len(want) > 1 {
+			c.LimitAt = genLimitBelow(t, want, "limit_at")
+		}
+	}
+	if rapid.IntRange(0, 2).Draw(t, "line_limit") == 0 {
+		c.LineLimit = maxStretch(stream) + rapid.IntRange(0, 2).Draw(t, "line_slack")
+		if c.LineLimit < 32 {
+			c.LineLimit = 32
+		}
+	}
+	return c
+}
+
+// genLimitBelow draws a size limit in [1, len(want)-1], half of the time one
+// that is used up right after a CR, LF or '.' of the message.
+func genLimitBelow(t *rapid.T, want []byte, label string) int {
+	var cand []int
+	for i, ch := range want[:len(want)-1] {
+		if ch == '\r' || ch == '\n' || ch == '.' {
+			cand = append(cand, i+1)
+		}
+	}
+	if len(cand) > 0 && rapid.Bool().Draw(t, label+"_edge") {
+		return rapid.SampledFrom(cand).Draw(t, label+"_pos")
+	}
+	return rapid.IntRange(1, len(want)-1).Draw(t, label+"_any")
 }
 
 // variant i of the four (segmentation, read size) combinations used for the
@@ -148,9 +241,20 @@ func c01Variant(word []byte, i int) c01Case {
 	return c
 }
 
+// c01LimitVariants: the word under every size limit from 1 to its length,
+// read with the given buffer size.
+func c01LimitVariants(word []byte, read int) []c01Case {
+	want, _, _ := ref.Unstuff(c01Stream(word))
+	var out []c01Case
+	for n := 1; n <= len(want); n++ {
+		out = append(out, c01Case{Body: word, Reads: []int{read}, LimitAt: n})
+	}
+	return out
+}
+
 func TestC01(t *testing.T) {
 	registerAll()
-	st.Rule = "cases = (DATA octet stream, segmentation, backend read sizes, mode, limit); exhaustive part: all words over {'.',CR,LF,'x'} up to the length bound, each closed with the shortest legal end marker; non-trivial = body has a line-start dot, a bare CR, a bare LF or an end-marker look-alike; distinct = hash of the whole case"
+	st.Rule = "cases = (DATA octet stream, segmentation, backend read sizes, mode, size limit above/at/below the message length, line limit no smaller than the longest LF-delimited stretch); exhaustive part: all words over {'.',CR,LF,'x'} up to the length bound, each closed with the shortest legal end marker, the shorter ones also under every size limit from 1 to their length; non-trivial = body has a line-start dot, a bare CR, a bare LF or an end-marker look-alike; distinct = hash of the whole case"
 	if !regress(t, "C01") {
 		return
 	}
@@ -185,6 +289,14 @@ func TestC01(t *testing.T) {
 			} else if !c01Words.one(t, c01Variant(word, idx)) {
 				complete = false
 			}
+			if complete && l <= pickTier(5, 7) {
+				for _, lc := range c01LimitVariants(word, 1+idx%3) {
+					if !c01Words.one(t, lc) {
+						complete = false
+						break
+					}
+				}
+			}
 			if !complete {
 				break
 			}
@@ -211,6 +323,14 @@ func FuzzC01(f *testing.F) {
 		c := c01Case{Body: body, Mode: int(readSeed>>8) % 3, Limit: readSeed&0x80 != 0}
 		c.Reads = []int{int(readSeed&0x7f) + 1}
 		n := len(c01Stream(body))
+		if readSeed&0x4000 != 0 {
+			if m := maxStretch(c01Stream(body)); m <= 2000 {
+				c.LineLimit = 2000 // the default limit
+			}
+		}
+		if w, _, _ := ref.Unstuff(c01Stream(body)); readSeed&0x8000 != 0 && len(w) > 1 {
+			c.LimitAt = 1 + int(cutSeed)%len(w)
+		}
 		// cutSeed: bit pattern over the first 16 positions, repeated
 		if cutSeed != 0 {
 			for k := 1; k < n && k < 2000; k++ {
